@@ -77,7 +77,8 @@ def _classify_reparse(text, detail):
 
 # ------------------------------------------------------------------------------------ JSON model round trip (small models)
 SHEET_IDS = ["'[book.xlsx]SHEET1'", "'[book.xlsx]MY SHEET'", "'[book.xlsx]DATA.2'"]
-CONSTS = [1, 2.5, -3, 0, True, False, 'text', 'with "quotes"', "it's", '=not a formula?', '=say "hi"', '', '#N/A', 'TRUE', '007', ' padded ']
+CONSTS = [1, 2.5, -3, 0, True, False, 'text', 'with "quotes"', "it's", '=not a formula?', '=say "hi"', '', '#N/A', 'TRUE', '007', ' padded ',
+          'Y', 'E', '#', 'mp', 'EMPTY', 'N']
 
 
 def _model_cases(tier, rng):
@@ -144,6 +145,16 @@ def _check_model(case):
         return 'second export differs from the first: %r (model %r)' % (diff, d)
     keys = [k for k in d]
     v1, v2 = _vals(s1, keys), _vals(s2, keys)
+    # the imported model holds the constants it was given (a constant is an entry that is not a formula text)
+    for k, v in d.items():
+        if isinstance(v, str) and v.startswith('='):
+            continue
+        got = v1.get(k)
+        from formulas.tokens.operand import XlError
+        if isinstance(v, str) and v.startswith('#') and got and isinstance(got[0][0], XlError) and str(got[0][0]) == v:
+            continue            # error text in a dictionary denotes the error value
+        if got is None or len(got) != 1 or len(got[0]) != 1 or type(got[0][0]) is not type(v) or got[0][0] != v:
+            return 'constant %r of cell %s is %r after import (model %r)' % (v, k, got, d)
     if v1 != v2:
         diff = {k: (v1[k], v2[k]) for k in keys if v1[k] != v2[k]}
         return 'values change through export / import: %r (model %r)' % (diff, d)
@@ -156,6 +167,9 @@ XLSX_MODELS = [
     {'S.1': {'A1': True, 'A2': '=IF(A1,UNDEFINED_NAME,0)', 'A3': '=ISERROR(A2)', 'B1': "it's", 'B2': '=LEN(B1)'}},
     {'DATA': {'A1': 1, 'A2': 2, 'A3': 3, 'C1': '=SUM(A:A)', 'C2': '=A1:A3 A2:A2', 'C3': '=Other!A1', 'C4': '=C3+1'}, 'Other': {'A1': 5}},
     # text constants (string-typed cells, marked ('text', ...)) that look like formulas, with and without quotes
+    {'Q': {'A1': 'Y', 'A2': 'N', 'A3': 'Y', 'A4': 'E', 'A5': '#', 'A6': 'mp', 'B1': 10, 'B2': 20, 'B3': 30, 'C1': True, 'C2': False,
+           'D1': '=COUNTIF(A1:A6,"Y")', 'D2': '=SUMIF(A1:A3,"Y",B1:B3)', 'D3': '=COUNTA(A1:A6)', 'D4': '=IF(A1="Y","yes","no")',
+           'D5': '=C1&""', 'D6': '=SUM(C1:C2)', 'D7': '=ISLOGICAL(C2)', 'D8': '=COUNT(B1:C2)'}},
     {'T': {'A1': ('text', '=say "hi"'), 'A2': ('text', '=plain'), 'A3': ('text', 'a "quoted" word'), 'A4': ('text', '="'),
            'B1': '=LEN(A1)', 'B2': '=A2&"!"', 'B3': '=A3', 'B4': '=LEN(A4)'}},
 ]
@@ -214,7 +228,7 @@ def _check_xlsx(i):
 
 BOUNDED = [
     Stage('B3:json-round-trip-of-workbooks-loaded-from-file', 'C09', _xlsx_cases, _check_xlsx,
-          '5 small workbooks written to a scratch directory (dangling sheet / file / name references, unknown functions, whole-column and '
+          '6 small workbooks written to a scratch directory (dangling sheet / file / name references, unknown functions, whole-column and '
           'intersection references, sheet names that need quoting, text cells that look like formulas and contain quotes), loaded from file, exported and re-imported', parallel=False),
     Stage('B1:exported-text-parses-back-to-the-same-formula', 'C09', _reparse_cases, _check_reparse,
           'random trees of the C01 generator (depth 1..4, 2 spelling styles) and reference expressions (range / intersection / union, '
